@@ -2,11 +2,13 @@
 # Build the framework from files on disk only (offline).
 set -e
 export GOFLAGS=-mod=mod GOPROXY=off GOSUMDB=off GOTOOLCHAIN=local
-cd /verif
-mkdir -p bin evidence replay .work
-cp /repo/go.sum harness/go.sum
-(cd harness && go build -tags verif -o /verif/bin/harness .)
-# regenerate every Gen/*.lean from the current /repo before the first lake build
+V=$(cd "$(dirname "$0")" && pwd)
+REPO=${VERIF_REPO:-/repo}
+cd "$V"
+mkdir -p bin evidence replay .work lean/Gen
+cp "$REPO/go.sum" harness/go.sum
+(cd harness && go mod edit -replace github.com/cosmos72/gomacro="$REPO" && go build -tags verif -o "$V/bin/harness" .)
+# regenerate every Gen/*.lean from the current repo before the first lake build
 rm -f lean/Gen/*.lean
-for p in $(./bin/harness list); do ./bin/harness extract -prop "$p" -repo /repo -gen /verif/lean/Gen; done
-(cd lean && lake build GoSpec Model Gen Proofs Props Drv Audit)
+for p in $(./bin/harness list); do ./bin/harness extract -prop "$p" -repo "$REPO" -gen "$V/lean/Gen"; done
+(cd lean && lake build Props Drv Audit)
